@@ -14,6 +14,7 @@ import (
 // holds the bound on the TOTAL number of deviations of all kinds (0 = no total bound).
 type Bounds [vrt.NKinds]int
 
+//go:norace
 func (b Bounds) String() string {
 	return fmt.Sprintf("total<=%d preempt<=%d intra<=%d order<=%d fault<=%d env<=%d", b[0], b[vrt.KPreempt], b[vrt.KIntra], b[vrt.KOrder], b[vrt.KFault], b[vrt.KEnv])
 }
@@ -33,6 +34,7 @@ type Run struct {
 	Diverged string
 }
 
+//go:norace
 func (r *Run) Choose(kinds []uint8, label string) int {
 	i := len(r.points)
 	c := 0
@@ -53,6 +55,8 @@ func (r *Run) Choose(kinds []uint8, label string) int {
 }
 
 // Choices returns the full choice sequence of the execution (a replay file).
+//
+//go:norace
 func (r *Run) Choices() []int {
 	out := make([]int, len(r.points))
 	for i, p := range r.points {
@@ -62,6 +66,8 @@ func (r *Run) Choices() []int {
 }
 
 // Trimmed returns the choice sequence without trailing zeros.
+//
+//go:norace
 func (r *Run) Trimmed() []int {
 	c := r.Choices()
 	n := len(c)
@@ -71,6 +77,7 @@ func (r *Run) Trimmed() []int {
 	return c[:n]
 }
 
+//go:norace
 func (r *Run) Labels() []string {
 	out := make([]string, len(r.points))
 	for i, p := range r.points {
@@ -80,6 +87,8 @@ func (r *Run) Labels() []string {
 }
 
 // Used returns the deviations spent per kind.
+//
+//go:norace
 func (r *Run) Used() Bounds {
 	var u Bounds
 	for _, p := range r.points {
@@ -90,6 +99,8 @@ func (r *Run) Used() Bounds {
 }
 
 // Replay returns a chooser that replays exactly the given choices.
+//
+//go:norace
 func Replay(choices []int) *Run { return &Run{prefix: choices} }
 
 type Stats struct {
@@ -108,6 +119,8 @@ type item struct {
 // Explore enumerates all executions within bounds. exec must run ONE execution
 // with the given chooser from a fresh initial state and return false to stop
 // the exploration early (time cap); visit is exec's job.
+//
+//go:norace
 func Explore(b Bounds, checkLabels bool, exec func(r *Run) bool) Stats {
 	var st Stats
 	stack := []item{{}}
